@@ -203,7 +203,7 @@ def run(ctx, ck) -> None:
             ck.incomplete('Z10', fn, f'kernel {fn.name}: {exc.site}: {exc.why}', instance=f'{m} lengths')
             continue
         for node, why in li.problems:
-            ck.bad('Z10', node, f'kernel {fn.name}: {why}', instance=f'{m} shape problem')
+            ck.bad('Z10', node, f'kernel {fn.name}: {why}', instance=f'{m} shape problem', semantic=True)
         nob = 0
         for ob in li.obligations:
             nob += 1
@@ -213,13 +213,13 @@ def run(ctx, ck) -> None:
             if w is not None:
                 ck.bad('Z10', ob.node, f'kernel {fn.name}: {ob.what} fails, e.g. for n={w["n"]}, K={w["K"]}, fft_size={w["fft_size"]} (nblock={w["nblock"]}) the margin is {w["value"]}: '
                        + ('the tail of the result is never computed (it keeps the zeros the buffer was created with)' if 'were all computed' in ob.what else
-                          'a slice goes out of bounds (dynamic slices are clamped silently, static ones truncated) and the method returns wrong values'), instance=f'{m} bound')
+                          'a slice goes out of bounds (dynamic slices are clamped silently, static ones truncated) and the method returns wrong values'), instance=f'{m} bound', semantic=True)
             else:
                 ck.incomplete('Z10', ob.node, f'kernel {fn.name}: cannot prove {ob.what} (margin {ob.expr})', instance=f'{m} bound')
         if not any(o.status != 'ok' and o.rule.endswith('Z10') and f'{m} ' in o.construct for o in ck.obs):
             ck.ok('Z10', fn, f'kernel {fn.name}: all {nob} slice / convolution bounds hold for every n >= 1, K >= 1, admissible fft_size (symbolic lengths in l, h = K-1, s = fft_size - 2h, q = nblock - 1)', instance=f'{m} bounds')
         if isinstance(out, Arr):
-            ck.expect('Z11', (out.n - LEN_L).is_zero(), fn, f'kernel {fn.name} returns exactly n values for an input of length n', f'kernel {fn.name} returns {out.n} values for an input of length l: the vectorised signature (n)->(n) is violated (error or wrong shape)', instance=f'{m} output length')
+            ck.expect('Z11', (out.n - LEN_L).is_zero(), fn, f'kernel {fn.name} returns exactly n values for an input of length n', f'kernel {fn.name} returns {out.n} values for an input of length l: the vectorised signature (n)->(n) is violated (error or wrong shape)', instance=f'{m} output length', semantic=True)
         else:
             ck.incomplete('Z11', fn, f'kernel {fn.name}: result is not an array in the length domain', instance=f'{m} output length')
 
